@@ -52,6 +52,8 @@ type c10resp struct {
 	DelayMs int `json:"delay_ms,omitempty"`
 	// HdrPad: that many bytes of further header lines (a reverse proxy that adds long policy, cookie and tracing headers)
 	HdrPad int `json:"hdr_pad,omitempty"`
+	// BodyGapMs: the header section is sent, the body follows that much later (a service that streams its answer)
+	BodyGapMs int `json:"body_gap_ms,omitempty"`
 }
 
 func (r c10resp) String() string {
@@ -63,6 +65,9 @@ func (r c10resp) String() string {
 	}
 	if r.HdrPad > 0 {
 		return fmt.Sprintf("%d/%s/%s/%s/headers+%d", r.Status, r.CT, r.Body, r.Frame, r.HdrPad)
+	}
+	if r.BodyGapMs > 0 {
+		return fmt.Sprintf("%d/%s/%s/%s/body-%dms-after-headers", r.Status, r.CT, r.Body, r.Frame, r.BodyGapMs)
 	}
 	return fmt.Sprintf("%d/%s/%s/%s", r.Status, r.CT, r.Body, r.Frame)
 }
@@ -343,6 +348,8 @@ func c10primaries(frames []string, https bool) (out []c10resp) {
 		}
 	}
 	// a healthy answer behind long header sections (nothing in the statement depends on their size)
+	// the body follows the header section after a pause
+	out = append(out, c10resp{Status: 200, CT: "json", Body: "obj0", Frame: "cl", BodyGapMs: 150}, c10resp{Status: 200, CT: "json", Body: "objnasty", Frame: "chunked", BodyGapMs: 150})
 	for _, pad := range []int{5000, 9000, 70000} {
 		out = append(out, c10resp{Status: 200, CT: "json", Body: "obj0", Frame: "cl", HdrPad: pad})
 	}
@@ -665,7 +672,15 @@ func (s *c10server) respond(rw net.Conn, tc *net.TCPConn, li int, head bool, r c
 	}
 	// the state "this request has been answered" must be visible before the client can react to the answer
 	s.update(li, func(e *c10req) { e.Complete = true })
-	_, err := rw.Write([]byte(hdr + payload))
+	var err error
+	if r.BodyGapMs > 0 {
+		if _, err = rw.Write([]byte(hdr)); err == nil {
+			time.Sleep(time.Duration(r.BodyGapMs) * time.Millisecond)
+			_, err = rw.Write([]byte(payload))
+		}
+	} else {
+		_, err = rw.Write([]byte(hdr + payload))
+	}
 	if err == nil && r.Body == "endless" {
 		chunk := strings.Repeat("x", 4096)
 		if frame == "chunked" {
